@@ -243,7 +243,7 @@ func c12RandomCase(rng *rand.Rand) obj {
 	}
 	nears := []string{"{{matrix", "{matrix}", "{{ matrixx }}", "{{matrix.}}", "{{matrix .a}}", "{{ matrix.a b }}", "{{Matrix}}", "{{ matrix.a }", "{ {matrix}}", "matrix.a"}
 	lits := []string{"x ", "-", " echo ", "/", ":", "=v", "é", "\n"}
-	ws := []string{"", " ", "  ", "\t", " \t "}
+	ws := []string{"", " ", "  ", "\t", " \t ", "\n", "\n  ", "\r\n", "\f"} // "inner whitespace allowed": any whitespace, line breaks included
 	mk := func(class string) obj {
 		toks := []any{}
 		if class == "pluginsrc" {
